@@ -169,8 +169,9 @@ inline void violation(const std::string& part, const std::string& key, const std
 	c.counters["violating_cases." + part]++;
 	if(c.replay) fprintf(stdout, "REPRODUCED part=%s key=%s\n  %s\n  case: %s\n", part.c_str(), key.c_str(), text.c_str(), cas.c_str());
 	if(c.violations.count(key)) return;
-	if(c.per_part[part] >= 25) return;
-	c.per_part[part]++;
+	std::string cls = part + "|" + key.substr(key.rfind('|') == std::string::npos ? 0 : key.rfind('|') + 1);
+	if(c.per_part[cls] >= 12) return;
+	c.per_part[cls]++;
 	c.violations[key] = {part, key, text, cas};
 }
 
